@@ -34,3 +34,11 @@ Proof. exact pinned_securekey_refuted. Qed.
 Theorem C17_pinned_base36_refuted : exists d, all_released_zero (rel_decode_secure false d true) = false.
 Proof. exact pinned_base36_refuted. Qed.
 Print Assumptions C17_pinned_sha1_refuted.
+(* secret_string: the plaintext copy handed to the callback is zero when released, whether the callback returns or throws (any type);
+   at the pinned commit a throwing callback left it intact (finding F5, also C18_tmp_pinned_refuted) *)
+Theorem C17_secret_reveal : forall (cb_throws : bool) (plain : list N), all_released_zero (rel_secret_reveal true cb_throws plain) = true.
+Proof. exact secret_reveal_zero. Qed.
+Print Assumptions C17_secret_reveal.
+Theorem C17_pinned_secret_reveal_refuted : exists plain, all_released_zero (rel_secret_reveal false true plain) = false.
+Proof. exact pinned_secret_reveal_refuted. Qed.
+Print Assumptions C17_pinned_secret_reveal_refuted.
